@@ -20,6 +20,11 @@ ghost_t G;
 /* create's allocator: records the request; the object handed back is the static store below (only the header is touched by create) */
 static size_t create_req; static int create_calls; static void* create_obj;
 static void* stub_calloc(size_t n, size_t sz) { create_calls++; create_req = n * sz; return verif_bool() ? 0 : create_obj; }
+/* the blocking wrappers call trypush / trypop by contract (the woven wrappers call stub_<callee>) */
+static int w_tries, w_done, w_bad; static void* w_val; static void* w_item;
+struct lockfree_ring_buffer;
+static int stub_lockfree_ring_buffer_trypush(struct lockfree_ring_buffer* rb, void* in);
+static void* stub_lockfree_ring_buffer_trypop(struct lockfree_ring_buffer* rb);
 #define calloc stub_calloc
 #include "lockfree_ring_buffer.h" /* woven real code (found first on the include path) */
 #undef calloc
@@ -156,3 +161,24 @@ void h_create(void) {
                  "H: C16 create: capacity 2^k, mask 2^k - 1, empty (high == low == 0, calloc'ed slots are NULL)");
   VCANARY("create can return");
 }
+/* ---- the blocking wrappers: retry until the first successful trypush / trypop, never again afterwards, pass the caller's value / return the popped one ---- */
+static int stub_lockfree_ring_buffer_trypush(struct lockfree_ring_buffer* rb, void* in) {
+  if ((void*)rb != (void*)RB || in != w_val || w_done) w_bad = 1;
+  w_tries++; int ok = verif_bool(); VASSUME(ok || w_tries < 4); if (ok) w_done = 1; return ok;
+}
+static void* stub_lockfree_ring_buffer_trypop(struct lockfree_ring_buffer* rb) {
+  if ((void*)rb != (void*)RB || w_done) w_bad = 1;
+  w_tries++; int ok = verif_bool(); VASSUME(ok || w_tries < 4); if (ok) { w_done = 1; return w_item; } return 0;
+}
+static void init_wrapper(void) {
+  w_tries = w_done = w_bad = 0; w_val = (void*)verif_u64(); w_item = (void*)verif_u64(); VASSUME(w_val != 0 && w_item != 0);
+  RB->size = 2; RB->power_of_2_mod = 1; CUR_H = verif_u64(); CUR_L = verif_u64(); G.role = PUSHER; G.A = 0; spec_snap();
+}
+void h_push_wrapper(void) { init_wrapper();
+  lockfree_ring_buffer_push(RB, w_val);
+  VASSERT(!w_bad && w_done && w_tries >= 1, "H: C16 push = trypush of the caller's value repeated until the first success, no attempt after it (its own accesses are reads: step monitor)");
+  VCANARY("push wrapper can return"); }
+void h_pop_wrapper(void) { init_wrapper();
+  void* r = lockfree_ring_buffer_pop(RB);
+  VASSERT(!w_bad && w_done && r == w_item, "H: C16 pop = trypop repeated until the first success, whose value is returned; no attempt after it (its own accesses are reads: step monitor)");
+  VCANARY("pop wrapper can return"); }
